@@ -249,7 +249,7 @@ func runC20Deep(r *Run, rng *Rng, replay string) {
 			if last.smInsts != n && smFails < 3 {
 				smFails++
 				r.Failf("C20.conservation.sm_insts_count", watch.cfg,
-					"sum of SM.GetTotalInstsCount() = %d, the sub-cores executed %d instructions (trace %d): SM.instsCount is never written", last.smInsts, last.insts, n)
+					"sum of SM.GetTotalInstsCount() = %d, the sub-cores executed %d instructions (trace %d)", last.smInsts, last.insts, n)
 			}
 		}
 	}
@@ -370,7 +370,7 @@ func runC20Deep(r *Run, rng *Rng, replay string) {
 		}
 		r.Case("c20 inst "+line, out)
 		if fault != "" {
-			r.Failf("C20.parse_render.register_range", "c20 inst "+line, "extractInst panics (%s): NewRegister knows only R0..R31 and R255", fault)
+			r.Failf("C20.parse_render.register_range", "c20 inst "+line, "extractInst panics (%s) on a SASS register (R0..R254 / R255)", fault)
 		}
 	}
 }
